@@ -24,7 +24,7 @@ PROP = {
                   "spec predicates of the theorems evaluated on every implementation output (Coq for samples, Rust for bulk).",
     "level_note": "Trusted: Coq kernel + vm_compute; pin.py; the harness (generators, oracle tables computed with Rust std / the implementation's own filters on single tokens, "
                   "a leftmost-longest matcher standing in for Aho-Corasick); Unicode tables, regex, stemmers, htmlescape are oracles or re-modelled (encode_minimal's five entities). "
-                  "Scores are abstract in the theorems and exact dyadic integers in the tie. No axioms (Print Assumptions: closed under the global context).",
+                  "Stemmer and dictionary oracles are per filter instance (two splitters / stemmers in one chain have their own tables, inputs collected by an identity probe filter); the facet tokenizer under a rewriting chain is modelled as coded (it appends each path segment to the text the filters left in its token: chain_text / facet_loop). Scores are abstract in the theorems and exact dyadic integers in the tie. No axioms (Print Assumptions: closed under the global context).",
     "technique": "Coq proof (list induction over code points, loop invariants of search_fragments / merge_overlapping_ranges / to_html) + correspondence cases evaluated by vm_compute",
     "rule": "token cases: (text, tokenizer, filter chain <= 3) non-trivial when tokens are emitted and the text is multi-byte or a filter is present; snippet cases: "
             "(text, analyzer, term/boolean query, max_num_chars in 0..|text|+1) non-trivial when something is highlighted; distinct by hash of the Gallina case term",
